@@ -119,7 +119,7 @@ def fault_path_stage(rep, prop, tier, hooked, base, rng):
     """The failure path of the writer thread (PipelineFaults.tla): behaviour beyond the listed properties.  Nothing here can
     become a VIOLATION: the stage records (1) what TLC says about the code's policy and about the repaired one and (2) whether
     the real code, made to fail a write, still follows the modelled fault path and ends where the model says it can."""
-    obs = {"design": [], "runs": [], "outcomes": {}}
+    obs = {"design": [], "runs": [], "outcomes": {}, "sites": {}}
     w, n, q = (1, 4, 2) if tier == "quick" else (2, 6, 4)
     # (1) design level: safety under both policies; the code's policy reaches Stuck, the repaired one settles
     r = C.tlc("PipelineFaults", faults_mc_cfg(w, n, q, False, 1, True), "MC_PipelineFaults_code", timeout=1800)
@@ -146,13 +146,15 @@ def fault_path_stage(rep, prop, tier, hooked, base, rng):
     # (the limit applies to every regular file the process writes, a trace file included)
     events, scns = [], []
     ncpu = os.cpu_count() or 2
-    plans = [(1, 400), (1, 700), (1, 1200), (3, 700), (3, 1500)] if tier == "quick" else \
-            [(c, f) for c in (1, 2, 3, 4) for f in (300, 400, 700, 1000, 1200, 1500, 2200)]
-    for k, (cpus, fsize) in enumerate(plans):
+    # (cpus, file-size limit, every how many clusters a raw one: 0 = all compressed)
+    plans = [(1, 400, 0), (1, 700, 0), (1, 1200, 0), (3, 700, 0), (3, 1500, 0), (1, 700, 3), (3, 900, 4), (1, 500, 2)] if tier == "quick" else \
+            [(c, f, m) for c in (1, 2, 3, 4) for f in (300, 400, 700, 1000, 1200, 1500, 2200) for m in (0, 3)] + [(16, 700, 0), (16, 2500, 5)]
+    for k, (cpus, fsize, mix) in enumerate(plans):
         if cpus > ncpu:
             continue
-        ncl = 8 if cpus < 3 else 14
-        ops = [{"cid": i + 1, "size": 2 * MIB + 4096 + i, "cls": "low", "hint": "yes", "src": "mem", "origin": 1} for i in range(ncl)]
+        ncl = 8 if cpus < 3 else (14 if cpus < 8 else 48)
+        ops = [{"cid": i + 1, "size": 2 * MIB + 4096 + i, "cls": "low", "hint": "yes", "src": "mem", "origin": 1} if not (mix and i % mix == mix - 1) else
+               {"cid": i + 1, "size": 70000 + i, "cls": "rand", "hint": "no", "src": "mem", "origin": 1} for i in range(ncl)]
         sid = "flt%d" % k
         s = {"kind": "content", "id": sid, "comp": "zstd", "level": 1, "ops": ops, "delay_seed": rng.randrange(1, 1 << 30),
              "delay_max_us": 20000, "origin": "pipeline-faults", "dir": os.path.join(base, sid), "trace_hooks": True, "read": False}
@@ -183,7 +185,11 @@ def fault_path_stage(rep, prop, tier, hooked, base, rng):
         else:
             status = "crash:%s" % p.returncode
         obs["outcomes"][status] = obs["outcomes"].get(status, 0) + 1
-        obs["runs"].append({"cpus": cpus, "fsize": fsize, "clusters": ncl, "status": status,
+        for e in raw:
+            if e.get("ev") == "PanicSite":
+                site = "%s at %s" % ("worker" if str(e.get("thread")).startswith("ClusterComp") else e.get("thread"), os.path.basename(str(e.get("site"))))
+                obs["sites"][site] = obs["sites"].get(site, 0) + 1
+        obs["runs"].append({"cpus": cpus, "fsize": fsize, "raw_every": mix, "clusters": ncl, "status": status,
                             "panics": [(e.get("thread"), os.path.basename(str(e.get("site")))) for e in raw if e.get("ev") == "PanicSite"]})
         if status.startswith("crash"):
             rep.drift("fault path: run %s ended with %s (neither a result nor the watchdog)" % (sid, status))
